@@ -9,6 +9,7 @@ CONSTANTS
   NearPairs = TRUE
   EqMode = "structural"
   ProvTags = 2
+  FreshApart = 2
   WideProv = TRUE
 CONSTRAINT Export
 INVARIANT ImplEncoder
